@@ -366,7 +366,10 @@ pub fn judge(c: &ClientCase, r: &RunOut) -> Result<Vec<&'static str>, (String, S
                     return Err((
                         "c19-backoff-too-short".into(),
                         format!("attempt {i} arrived {gap} ms after the failure of attempt {} ({prev:?}); the back-off for consecutive failure #{} is {want} ms (max_retry_interval {})", i - 1, k, c.max_retry_interval),
-                        false,
+                        // after a stalled handshake the failure time is estimated from the accept time (the client's timer started
+                        // at its connect, slightly earlier): that verdict is confirmed by a re-run; all other failure times are
+                        // recorded before the failing action, so the bound is hard
+                        prev == Attempt::AcceptAndStall,
                     ));
                 }
                 if gap > want + 700 {
